@@ -778,6 +778,9 @@ class Parser:
 VTUPLE_ENUMS = set()
 
 
+STRUCT_ALIAS = {}   # Rust struct name -> Lean structure name, where a storage key variant carries the struct's name
+
+
 OUTS = {}     # (namespace, function) -> positions of its `&mut` OUT parameters: the function returns their final values too
 
 
@@ -1201,6 +1204,8 @@ class Gen:
                         return (f"(List.filter (fun {x_} => decide {pl}) {vl})", vt)
             raise Unsupported("Vec::from_iter of this iterator")
         if e[0] == "struct":
+            if e[1] in STRUCT_ALIAS:
+                e = (e[0], STRUCT_ALIAS[e[1]]) + tuple(e[2:])     # a struct whose Lean name differs from its Rust name
             flds = getattr(self, "structs", {}).get(e[1])
             if flds is None or [f for f, _ in flds] != [f for f, _ in e[2]]:
                 raise Unsupported(f"struct literal {e[1]}")
@@ -1402,6 +1407,13 @@ class Gen:
             parts_ = [self.pure(x, env) for x in e[1]]
             return ("(" + ", ".join(as_nat(l_, t_) if t_ == "int" else l_ for l_, t_ in parts_) + ")",
                     "tuple<" + ",".join("u32" if t_ == "int" else t_ for _, t_ in parts_) + ">")
+        if e[0] == "un" and e[1] == "!":
+            l, t = self.pure(e[2], env)
+            if t != "bool":
+                raise Unsupported("! of " + t)
+            return (f"(!{l})", "bool")
+        if e[0] == "macro" and e[1] == "vec" and e[2] in (["e"], ["_e"]):
+            return ("[]", "Vec<?>")     # `vec![e]`: the empty vector
         if e[0] == "macro" and e[1] == "matches" and len(e[2]) >= 2 and e[2][1] == "," and e[2][2:] == ["Ok", "(", "Ok", "(", "_", ")", ")"] \
                 and e[2][0] in env and env[e[2][0]][1] == "TryOk":
             return (env[e[2][0]][0], "bool")
@@ -3179,6 +3191,14 @@ READS_OWN = {"Ownable": {"ledger_sequence": "u32", "min_temp_ttl": "u32", "max_t
 FILES_OWN = [("Ownable", "packages/access/src/role_transfer/storage.rs", ["transfer_role", "accept_transfer"]),
              ("Ownable", "packages/access/src/ownable/storage.rs",
               ["get_owner", "enforce_owner_auth", "transfer_ownership", "accept_ownership", "renounce_ownership"])]
+STORE_CLM = {"Claims": {"Claim": (["Bytes32"], "IdClaim"), "ClaimsByTopic": (["u32"], "Vec<Bytes32>")}}
+STRUCTS_CLM = {"IdClaim": [("topic", "u32"), ("scheme", "u32"), ("issuer", "Address"), ("signature", "Bytes"), ("data", "Bytes"), ("uri", "Val")]}
+READS_CLM = {"Claims": {"current_contract_address": "Address",
+                        "to_xdr": ("purefn", ["Address"], "Bytes"), "keccak256": ("purefn", ["Bytes"], "Bytes32"),
+                        "ClaimIssuerClient_is_claim_valid": ("fn", ["Address", "Address", "u32", "u32", "Bytes", "Bytes"], "()")}}
+FILES_CLM = [("Claims", "packages/tokens/src/rwa/identity_claims/storage.rs",
+              ["add_claim", "get_claim", "get_claim_ids_by_topic", "remove_claim", "remove_claim_from_topic_index", "generate_claim_id",
+               "add_claim_to_topic_index"])]
 STORE_SEQ = {"Sequential": {"TokenIdCounter": ([], "u32")}}
 FILES_SEQ = [("Sequential", "packages/tokens/src/non_fungible/utils/sequential/storage.rs", ["next_token_id", "increment_token_id"])]
 STORE_ADM = {"AccessAdmin": {"PendingAdmin": ([], "Address", "temp"), "Admin": ([], "Address")}}
@@ -3870,6 +3890,10 @@ def main():
             txt = translate(repo, FILES_CTIF, reads={"TopicsF": {}}, store=STORE_CTIF)
         elif "--topics" in sys.argv:
             txt = translate(repo, FILES_CTI, reads={"Topics": {}}, store=STORE_CTI)
+        elif "--claims" in sys.argv:
+            STRUCT_ALIAS["Claim"] = "IdClaim"
+            txt = translate(repo, FILES_CLM, reads=READS_CLM, structs=STRUCTS_CLM, store=STORE_CLM,
+                            tymaps={"packages/tokens/src/rwa/identity_claims/storage.rs": {"BytesN<32>": "Bytes32", "String": "Val", "Claim": "IdClaim"}})
         elif "--sequential" in sys.argv:
             txt = translate(repo, FILES_SEQ, reads={"Sequential": {}}, store=STORE_SEQ)
         elif "--access-admin" in sys.argv:
